@@ -310,7 +310,7 @@ def body_dataset(ctx, kind, after_others=False):
     if after_others:
         _short_lived_triangulations()
     which = 0 if kind == 'cf1d-big' else int(ctx.int('variant', 0, 3))
-    if kind in ('mesh', 'mesh-small', 'mesh-attr'):
+    if kind in ('mesh', 'mesh-small', 'mesh-attr', 'mesh-unsigned'):
         names = list(SHAPES)
         # every shape, in an order that depends on the variant (so concave cells sit at different linear indexes)
         chosen = names[which * 3:] + names[:which * 3]
@@ -330,7 +330,11 @@ def body_dataset(ctx, kind, after_others=False):
         if kind == 'mesh-attr' and which >= 1:
             # a face whose row of the table is padding only: a cell without geometry
             faces.insert(which, [])
-        if kind == 'mesh-attr':
+        if kind == 'mesh-unsigned':
+            # built in memory in unsigned integer types, padded with the largest value of the type (named by _FillValue)
+            udt = ('uint32', 'uint16', 'uint8', 'uint32')[which]
+            ds = builders.ugrid((nodes, faces), fill='attr', start_index=which % 2, dtype=udt, fill_value=int(numpy.iinfo(udt).max))
+        elif kind == 'mesh-attr':
             # built in memory: integer tables, one-based, the fill value kept as an attribute (also 0 and a valid-looking 4)
             ds = builders.ugrid((nodes, faces), fill='attr', start_index=1, fill_value=[999999, 0, -1, 4][which])
         else:
@@ -491,7 +495,7 @@ def cases(tier):
         for reverse in (False, True):
             yield Case(f'ears:n{n}:{"rev" if reverse else "fwd"}', body_ears, dict(n=n, reverse=reverse), patches=_tri_patches,
                        max_paths=50000, split=16)
-    for kind in ('mesh', 'mesh-manysided', 'mesh-small', 'mesh-attr', 'cf1d-gaps', 'cf2d-misdim', 'cf2d', 'cf2d-dart', 'shoc_standard', 'cf1d', 'cf1d-int', 'sparse8') + (() if q else ('sparse16',)):
+    for kind in ('mesh', 'mesh-manysided', 'mesh-small', 'mesh-attr', 'mesh-unsigned', 'cf1d-gaps', 'cf2d-misdim', 'cf2d', 'cf2d-dart', 'shoc_standard', 'cf1d', 'cf1d-int', 'sparse8') + (() if q else ('sparse16',)):
         yield Case(f'dataset:{kind}', body_dataset, dict(kind=kind), max_paths=20)
     yield Case('dataset:cf1d-big', body_dataset, dict(kind='cf1d-big'), max_paths=2)
     for kind in ('mesh', 'cf2d-dart'):
